@@ -219,7 +219,7 @@ class StreamableHTTPTransport(Transport):
                             logger.debug(
                                 f"Got immediate JSON response for {message_id}"
                             )
-                            await self._route_response(response_data)
+                            await self._route_body(response_data, message_id)
                         except json.JSONDecodeError as e:
                             logger.error(f"Failed to parse JSON response: {e}")
                             error_response = {
@@ -232,7 +232,19 @@ class StreamableHTTPTransport(Transport):
                     elif "text/event-stream" in content_type:
                         # SSE streaming response
                         logger.debug(f"Processing SSE response for {message_id}")
-                        await self._process_sse_response(response, message_id)
+                        routed = await self._process_sse_response(response, message_id)
+                        if not routed and message_id is not None:
+                            # An event stream without a single message (empty,
+                            # truncated, malformed) must still end the request
+                            error_response = {
+                                "jsonrpc": "2.0",
+                                "id": message_id,
+                                "error": {
+                                    "code": -32603,
+                                    "message": "No JSON-RPC message in SSE response",
+                                },
+                            }
+                            await self._route_response(error_response)
                     else:
                         # Unexpected content type - try to parse as JSON anyway
                         logger.debug(f"Unexpected content type: {content_type}")
@@ -244,7 +256,7 @@ class StreamableHTTPTransport(Transport):
                             if not response_text:
                                 logger.debug(f"Empty response body for {message_id}")
                                 # For notifications, this is fine
-                                if not message_id:
+                                if message_id is None:
                                     return
                                 # For requests, send an empty success response
                                 success_response = {
@@ -263,11 +275,11 @@ class StreamableHTTPTransport(Transport):
                             else:
                                 # Try JSON parsing
                                 response_data = json.loads(response_text)
-                                await self._route_response(response_data)
+                                await self._route_body(response_data, message_id)
                         except Exception as e:
                             logger.debug(f"Could not parse response: {e}")
-                            # For empty 202 responses, don't treat as error
-                            if response.status_code == 202:
+                            # For 202 answers to notifications, don't treat as error
+                            if response.status_code == 202 and message_id is None:
                                 logger.debug(f"202 Accepted for {message_id}")
                                 return
                             error_response = {
@@ -313,8 +325,9 @@ class StreamableHTTPTransport(Transport):
 
     async def _process_sse_response(
         self, response: httpx.Response, message_id: str
-    ) -> None:
-        """Process SSE streaming response."""
+    ) -> int:
+        """Process SSE streaming response. Returns the number of messages routed."""
+        routed = 0
         try:
             buffer = ""
             current_event = None
@@ -324,8 +337,7 @@ class StreamableHTTPTransport(Transport):
             if hasattr(response, "text"):
                 # Response is already fully loaded
                 text = response.text
-                await self._process_sse_text(text, message_id)
-                return
+                return await self._process_sse_text(text, message_id)
 
             # Process streaming response
             async for chunk in response.aiter_text(chunk_size=1024):
@@ -342,7 +354,7 @@ class StreamableHTTPTransport(Transport):
                     if not line:
                         # Empty line marks end of event
                         if current_event and event_data:
-                            await self._process_sse_event(
+                            routed += await self._process_sse_event(
                                 current_event, event_data, message_id
                             )
                         current_event = None
@@ -358,7 +370,9 @@ class StreamableHTTPTransport(Transport):
 
             # Process any remaining event
             if current_event and event_data:
-                await self._process_sse_event(current_event, event_data, message_id)
+                routed += await self._process_sse_event(
+                    current_event, event_data, message_id
+                )
 
         except Exception as e:
             logger.error(f"Error processing SSE response: {e}")
@@ -367,46 +381,60 @@ class StreamableHTTPTransport(Transport):
                 "id": message_id,
                 "error": {"code": -32603, "message": str(e)},
             }
-            await self._route_response(error_response)
+            routed += await self._route_response(error_response)
+        return routed
 
-    async def _process_sse_text(self, text: str, message_id: str) -> None:
-        """Process SSE text that's already fully loaded."""
+    async def _process_sse_text(self, text: str, message_id: str) -> int:
+        """Process SSE text that's already fully loaded.
+
+        Follows the event-stream grammar: lines end with LF, CRLF or CR; a line
+        starting with ':' is a comment; one optional space after the field colon
+        is dropped; an event without an ``event:`` field is a ``message`` event.
+        Returns the number of messages routed.
+        """
+        routed = 0
         try:
-            lines = text.split("\n")
+            lines = text.replace("\r\n", "\n").replace("\r", "\n").split("\n")
             current_event = None
             event_data: list[str] = []
 
             for line in lines:
-                line = line.rstrip("\r")
-
                 if not line:
                     # Empty line marks end of event
-                    if current_event and event_data:
-                        await self._process_sse_event(
-                            current_event, event_data, message_id
+                    if event_data:
+                        routed += await self._process_sse_event(
+                            current_event or "message", event_data, message_id
                         )
                     current_event = None
                     event_data = []
                     continue
 
+                if line.startswith(":"):
+                    continue  # comment / keep-alive
+
                 # Parse SSE format
-                if line.startswith("event: "):
-                    current_event = line[7:].strip()
-                elif line.startswith("data: "):
-                    data = line[6:]  # Keep formatting
-                    event_data.append(data)
+                field, _, value = line.partition(":")
+                if value.startswith(" "):
+                    value = value[1:]
+                if field == "event":
+                    current_event = value.strip()
+                elif field == "data":
+                    event_data.append(value)  # Keep formatting
 
             # Process any remaining event
-            if current_event and event_data:
-                await self._process_sse_event(current_event, event_data, message_id)
+            if event_data:
+                routed += await self._process_sse_event(
+                    current_event or "message", event_data, message_id
+                )
 
         except Exception as e:
             logger.error(f"Error processing SSE text: {e}")
+        return routed
 
     async def _process_sse_event(
         self, event_type: str, data_lines: list, message_id: str
-    ) -> None:
-        """Process a complete SSE event."""
+    ) -> int:
+        """Process a complete SSE event. Returns the number of messages routed."""
         try:
             # Join data lines
             full_data = "\n".join(data_lines)
@@ -415,18 +443,42 @@ class StreamableHTTPTransport(Transport):
 
             # Handle message events (the actual response)
             if event_type in ["message", "response", None]:
-                if full_data.strip().startswith("{"):
+                if full_data.strip().startswith(("{", "[")):
                     try:
                         response_data = json.loads(full_data.strip())
-                        await self._route_response(response_data)
+                        return await self._route_response(response_data)
                     except json.JSONDecodeError as e:
                         logger.error(f"Failed to parse SSE message JSON: {e}")
 
         except Exception as e:
             logger.error(f"Error processing SSE event: {e}")
+        return 0
 
-    async def _route_response(self, response_data: Dict[str, Any]) -> None:
-        """Route response to the appropriate handler."""
+    async def _route_body(self, response_data: Any, message_id: Any) -> None:
+        """Route a decoded JSON body; a body that is valid JSON but carries no
+        JSON-RPC message still has to end the request it answers."""
+        routed = await self._route_response(response_data)
+        if not routed and message_id is not None:
+            await self._route_response(
+                {
+                    "jsonrpc": "2.0",
+                    "id": message_id,
+                    "error": {
+                        "code": -32603,
+                        "message": "Response body is not a JSON-RPC message",
+                    },
+                }
+            )
+
+    async def _route_response(self, response_data: Dict[str, Any]) -> int:
+        """Route response to the appropriate handler. Returns the number of messages routed."""
+        if isinstance(response_data, list):
+            # A JSON array body is a batch: route every member
+            routed = 0
+            for item in response_data:
+                routed += await self._route_response(item)
+            return routed
+
         try:
             from chuk_mcp.protocol.messages.json_rpc_message import JSONRPCMessage
 
@@ -442,7 +494,7 @@ class StreamableHTTPTransport(Transport):
                     if not future.done():
                         future.set_result(response_data)
                         logger.debug(f"Completed pending request {message_id}")
-                        return
+                        return 1
 
             # Otherwise route to incoming stream
             if self._incoming_send:
@@ -450,10 +502,12 @@ class StreamableHTTPTransport(Transport):
                 logger.debug(
                     f"Routed message to incoming stream: {message.method or 'response'}"
                 )
+                return 1
 
         except Exception as e:
             logger.error(f"Error routing response: {e}")
             logger.error(f"Response data: {response_data}")
+        return 0
 
     async def wait_for_response(
         self, message_id: str, timeout: float | None = None
